@@ -209,9 +209,51 @@ Theorem C02_canon_m_nofuel : forall c fx fuel src rl s D,
 Proof. exact canonicalize_nofuel. Qed.
 Print Assumptions C02_canon_m_nofuel.
 
-(* copy and canonicalisation never increase the source's traversal budget and keep it >= 0
-   (part of [rpost] / [wgood] in C01_write_ptr_safe, C01_copy_struct_safe, C01_canon_all, and
-   the second conjunct of C01_canon_m_safe): what they consume is at most what is left of T.
-   NOT proved (full statements in Value/CanonSafe.v): canon_alloc_partial / copy_alloc_partial
-   (bytes appended to the destination <= 3 * consumed budget + 24 * pointer slots + top-level
-   size). *)
+(* no amplification: bytes appended to the destination are bounded by the traversal budget
+   consumed from the source.  Ghost counter tot = total length of the destination's segments. *)
+From CV Require Import Core.CopyAlloc Value.CanonAlloc.
+
+(* cross-message writePtr: own padded copy + landing pad + 32 per pointer slot + 5 x consumed;
+   for a reader-made pointer at most 5 x (readSize + consumed) + 32 *)
+Theorem C02_write_ptr_alloc : forall f w dsid off src fc w',
+  dok (w_dst w) -> msg_ok (w_src w) -> 0 <= w_src_rl w -> region_ok (w_dst w) dsid off 8 ->
+  wf_ptr (w_src w) src -> shape_ok src ->
+  write_ptr f true w dsid off InSrc src fc = Ok w' ->
+  0 <= w_src_rl w' <= w_src_rl w /\
+  0 <= tot (w_dst w') - tot (w_dst w) <= wcost src + 32 * slots src + 5 * (w_src_rl w - w_src_rl w') /\
+  tot (w_dst w') - tot (w_dst w) <= 5 * (readSize src + (w_src_rl w - w_src_rl w')) + 32.
+Proof. exact write_ptr_alloc. Qed.
+Print Assumptions C02_write_ptr_alloc.
+
+Theorem C02_copy_struct_alloc : forall f w dst src w',
+  dok (w_dst w) -> msg_ok (w_src w) -> 0 <= w_src_rl w -> dst_ok (w_dst w) dst ->
+  wf_struct (w_src w) src -> p_valid src = true ->
+  copy_struct f true w dst InSrc src = Ok w' ->
+  0 <= w_src_rl w' <= w_src_rl w /\
+  0 <= tot (w_dst w') - tot (w_dst w) <= 32 * PointerCount (p_size src) + 5 * (w_src_rl w - w_src_rl w').
+Proof. exact copy_struct_alloc. Qed.
+Print Assumptions C02_copy_struct_alloc.
+
+(* Canonicalize: the canonical bytes of a hostile struct are at most
+   5 x (its size + budget consumed) + 47 long *)
+Theorem C02_canonicalize_alloc : forall c fx fuel src rl s bs,
+  cfg_strict c = true -> cx_complist fx = true -> msg_ok src -> wf_struct src s -> p_valid s = true -> 0 <= rl ->
+  fst (canonicalize c fx fuel src rl s) = KOk bs ->
+  let rl' := snd (canonicalize c fx fuel src rl s) in
+  0 <= rl' <= rl /\ zlen bs <= 5 * (totalSize (p_size s) + (rl - rl')) + 47.
+Proof. exact canonicalize_alloc. Qed.
+Print Assumptions C02_canonicalize_alloc.
+
+(* Equal, instrumented with the sum of the read sizes it hands out per message ([equal_mA];
+   erasing the ghost gives equal_m): handed out <= budget consumed <= T, any messages (no
+   well-formedness needed), any fuel *)
+From CV Require Import Value.EqualAcct.
+Theorem C02_equal_m_traversal : forall c fx x fuel w p q,
+  nonneg2 x w ->
+  let r := equal_mA fuel c fx x w (0, 0) p q in
+  fst r = equal_m fuel c fx x w p q /\
+  forall s, 0 <= rl_of x (snd (fst r)) s /\ 0 <= rl_of x (snd r) s /\
+            rl_of x (snd r) s <= rl_of x w s - rl_of x (snd (fst r)) s /\
+            rl_of x (snd r) s <= rl_of x w s.
+Proof. exact equal_m_traversal. Qed.
+Print Assumptions C02_equal_m_traversal.
